@@ -195,6 +195,12 @@ struct MaybeAge(Option<u8>);
 #[derive(Debug, PartialEq, serde::Deserialize)]
 struct AgeHolder { a: MaybeAge, rest: Vec<MaybeAge> }
 
+// by-reference iteration hands out the items with the lifetime the inner collection gives them
+#[nutype(derive(Debug, Clone, AsRef, IntoIterator))]
+struct Words<'a>(Vec<&'a str>);
+fn longest_inner<'a>(w: &Vec<&'a str>) -> &'a str { let mut best: &'a str = ""; for x in w { if x.len() > best.len() { best = *x; } } best }
+fn longest<'a>(w: &Words<'a>) -> &'a str { let mut best: &'a str = ""; for x in w { if x.len() > best.len() { best = *x; } } best }
+
 fn bits_eq_vec(a: &[f64], b: &[f64]) -> bool {
     a.len() == b.len() && a.iter().zip(b).all(|(x, y)| x.to_bits() == y.to_bits())
 }
@@ -384,6 +390,12 @@ fn main() {
         let l: Vec<i64> = (0..3).map(|_| Lvl::default().into_inner()).collect();
         report("C03", "Lvl", "default_sanitized", l == vec![10, 10, 10] && Lvl::try_new(50).map(|t| t.into_inner()).ok() == Some(10), format!("{:?}", l));
         let _ = std::panic::take_hook();
+    }
+    // ------------------------------------------------------------ Words<'a>: items outlive the borrow of the wrapper
+    {
+        let text = String::from("alpha beta gamma-delta");
+        let kept: &str = { let w = Words::new(text.split(' ').collect()); let i = w.as_ref().clone(); let a = longest(&w); let b_ = longest_inner(&i); if a == b_ { a } else { "" } };
+        report("C13", "Words", "iter_ref_item_lifetime", kept == "gamma-delta", kept.to_string());
     }
     // ------------------------------------------------------------ Ordered(Span): FromStr = the inner type's parser, then the constructor
     {
